@@ -16,7 +16,7 @@ ID = 'C16'
 LEVEL = 'exploration'
 RUNS = {'quick': 4800}
 BUDGET_S = {'thorough': 600}
-CMD_WEIGHTS = {'filter': 5, 'list': 5, 'connection': 2}
+CMD_WEIGHTS = {'filter': 5, 'list': 5, 'connection': 2, 'resume': 1}
 RULE = ('one evaluation = one simulated session replayed, same seed, under clock epoch 0 / a second epoch in [1, 2^32) and, in the '
         'old printer dialect, with both decimal marks (the clock is the injected fault); inter-message gaps are drawn on the '
         'microsecond lattice around the one-second threshold (999998..1000002) among sub-ms steps and minutes; filters make the '
